@@ -786,6 +786,87 @@ theorem execGen_equiv_assignAll (schedG schedS : Sched) (s : MState) (args : Lis
       exact htrig (toE t) (List.mem_map_of_mem htl)
     · rw [untrig sG.store hrG u hu huT, untrig sS.store hinvS.reach u hu huT]
 
+/-! ### the other locations (C01, last clause) -/
+
+/-- after a completed `set_value(ref, value)` in scope the assigned location holds the value, and every location
+    that is neither the assigned one nor a definition's target (nor above / below one) holds what it held -/
+theorem setValue_other_locations (sched : Sched) (s : MState) (p : Path) (v : Val) (hi : MInv s)
+    (sc : Scope (preState s p) p) (s' : MState) (hok : setValue sched s p v = (s', none)) :
+    get s'.store p = .ok v ∧
+    ∀ q, canonPath q → Incomparable p q → (∀ t ∈ (preState s p).defs, Incomparable t.id q) →
+      get s'.store q = get s.store q := by
+  have hf : lookDef s.defs p ≠ none → s.frozen = false := by
+    intro hne
+    cases hl : lookDef s.defs p with
+    | none => exact absurd hl hne
+    | some t =>
+      cases hfz : s.frozen with
+      | false => rfl
+      | true =>
+        rw [setValue_frozen_defined sched s p v t hfz hl] at hok
+        cases hok
+  obtain ⟨hi0, hst, _, _, hfree, _⟩ := preState_facts s p hi hf
+  have hw := setValue_eq sched s p v s' hok
+  generalize preState s p = pre at sc hi0 hst hfree hw
+  have hreach := writeAndRun_reach sched pre p v sc.nofault sc.exprs s' hw
+  -- the triggered ids are definitions
+  obtain ⟨_, hmem⟩ := findTaskids_once_exact pre hi0 (chainR p)
+  have hπdefs : ∀ w ∈ sched (findTaskids pre.idx (chainR p)), ∃ t ∈ pre.defs, t.id = w := by
+    intro w hw'
+    unfold writeAndRun at hw
+    cases hwr : writeRef pre p v with
+    | mk sw x =>
+      cases x with
+      | some x => simp [hwr] at hw
+      | none =>
+        simp only [hwr] at hw
+        obtain ⟨_, _, hdw, hiw, _⟩ := writeRef_nofault pre p v sc.nofault sw hwr
+        rw [hiw, hdw] at hw
+        generalize hm : List.mapM (lookTask pre.defs) (sched (findTaskids pre.idx (chainR p))) = res at hw
+        cases res with
+        | error e => simp at hw
+        | ok l =>
+          obtain ⟨hlmap, hlsub⟩ := mapM_lookDef pre.defs _ (lookTask_ok pre.defs) _ l hm
+          have : w ∈ l.map (·.id) := by rw [hlmap]; exact hw'
+          obtain ⟨t, ht, hte⟩ := List.mem_map.mp this
+          exact ⟨t, hlsub t ht, hte⟩
+  constructor
+  · -- the assigned location: written first, then only targets (incomparable with it) are written
+    unfold writeAndRun at hw
+    cases hwr : writeRef pre p v with
+    | mk sw x =>
+      cases x with
+      | some x => simp [hwr] at hw
+      | none =>
+        simp only [hwr] at hw
+        obtain ⟨hset, hnfw, hdw, hiw, _⟩ := writeRef_nofault pre p v sc.nofault sw hwr
+        rw [hiw, hdw] at hw
+        generalize hm : List.mapM (lookTask pre.defs) (sched (findTaskids pre.idx (chainR p))) = res at hw
+        cases res with
+        | error e => simp at hw
+        | ok l =>
+          simp only at hw
+          obtain ⟨hlmap, hlsub⟩ := mapM_lookDef pre.defs _ (lookTask_ok pre.defs) _ l hm
+          have := runTasks_frame l sw p sc.pathP.2 (fun t ht => by
+            obtain ⟨e, he, _⟩ := sc.exprs t (hlsub t ht)
+            have hne : t.id ≠ p := by
+              intro e'
+              have := lookDef_of_mem pre.defs hi0.ids t (hlsub t ht)
+              rw [e', hfree] at this
+              cases this
+            exact ⟨⟨e, he⟩, (sc.paths t (hlsub t ht)).1.2, Capstone.incomparable_symm (sc.h2p t (hlsub t ht) hne)⟩)
+          rw [hw] at this
+          rw [this]
+          exact get_set_same hset
+  · intro q hq hpq htq
+    rw [← hst]
+    refine hreach.frame q hq ?_
+    intro w hw'
+    rcases List.mem_cons.mp hw' with rfl | hw'
+    · exact ⟨sc.pathP.2, hpq⟩
+    · obtain ⟨t, ht, rfl⟩ := hπdefs w hw'
+      exact ⟨(sc.paths t ht).1.2, htq t ht⟩
+
 /-! ### the scope, decided -/
 
 theorem isPrefix_sound : ∀ (w r : Path), isPrefix w r = true → ∃ q, r = w ++ q
